@@ -838,7 +838,7 @@ class Container:
                 total_mass += Unit.convert_from(substance, amount, source_unit, "g")
             if total_mass == 0:
                 raise ValueError(f"There is no mass in the source container ({source_container.name}).")
-            requested, available = mass_to_transfer, total_mass
+            requested, available = mass_to_transfer / mass_scale, total_mass / mass_scale  # (compared on that scale too)
             ratio = mass_to_transfer / total_mass
         elif unit == 'mol':
             moles_to_transfer = Unit.convert_to_storage(quantity_to_transfer, 'mol')
